@@ -1035,7 +1035,12 @@ impl PropertyReport {
                 *known.entry(k.clone()).or_default() += v;
             }
             inconclusive.extend(sub.inconclusive.iter().cloned());
+            let mut seen_keys: HashSet<String> = HashSet::new();
             for f in &sub.failures {
+                // one report per root cause (key), however many shards met it
+                if !seen_keys.insert(f.key.clone()) {
+                    continue;
+                }
                 violations += 1;
                 let replay = f
                     .replay
